@@ -12,6 +12,7 @@ Ident(n) == [k \in 1..n |-> k]
 Verdict(c) ==
   IF c.end = "crashed" THEN "parent_crashed"
   ELSE IF c.end \in {"hang", "stuck"} THEN "does_not_terminate"
+  ELSE IF c.natural > 0 /\ ~c.poison THEN "worker_fails_on_valid_input"      \* a worker's target raised although no fault was injected and every record is valid
   ELSE IF c.faults = 0 /\ c.end # "finished" THEN "fails_without_any_fault"
   ELSE IF c.end = "finished" /\ c.prios # Ident(c.R) THEN
        (IF c.faults > 0 THEN "success_reported_for_incomplete_output"
